@@ -434,6 +434,39 @@ def rule_CBS(ctx, tier):
     return rr
 
 
+def rule_CBR(ctx, tier):
+    """the other direction of CBS.  A replacement by a SMALLER blob gives slots back: the balance is credited (and persisted)
+    by Gatekeeper::add_update_appointment, the stored blob is rewritten later by Watcher::store_appointment, two autocommit
+    statements.  A crash in between leaves the user with the slots AND the old, bigger appointment: C03 'a crash never grants
+    slots'.  Charge-then-store is the right order for a bigger replacement and the wrong one for a smaller one, so either
+    the balance write is reached only with a non-negative difference, or the blob was rewritten before it (same function), or
+    both writes are issued inside one transaction."""
+    rr = RuleResult("CBR", "a replacement that gives slots back rewrites the stored blob before (or atomically with) crediting the balance")
+    P = ctx.prog
+    g = P.require(ADD_UPDATE_APPT)
+    from .rulekit import relations, const_of, sites
+    from . import origin as og
+    ups = sites(g, "teos::dbm::DBM::update_user")
+    if not ups:
+        rr.anchor_missing("DBM::update_user in Gatekeeper::add_update_appointment")
+        return rr
+    before = ctx.pf.called_before(g)
+    for u in ups:
+        nonneg = False
+        for op, l, r in relations(ctx, g, u):
+            c = const_of(r)
+            ls = og.show(l)
+            if c and c[0] == 0 and op in ("Ge", "Gt") and "compute_appointment_slots" in ls and "Sub" in ls:
+                nonneg = True
+        rewritten = any(x.endswith(("DBM::update_appointment", "DBM::store_appointment")) for x in before.get(u, set()))
+        in_tx = any("Connection::transaction" in x or "unchecked_transaction" in x for x in before.get(u, set()))
+        if nonneg or rewritten or in_tx:
+            rr.ok("balance written only for a charge, or after / together with the blob", sample={"rule": "CBR", "site": g.line_of(u), "non-negative difference": nonneg, "blob rewritten before": rewritten})
+        else:
+            rr.fail("replace:credit-before-rewrite", "`Gatekeeper::add_update_appointment` persists a balance that may have been CREDITED (required - used < 0: the replacement is smaller) while the stored appointment is still the old, bigger one; `Watcher::store_appointment` rewrites it later in a statement of its own. A crash in between leaves the user with the slots and the bigger appointment (C03: a crash never grants slots)", where=g.line_of(u))
+    return rr
+
+
 def rule_AT4(ctx, tier):
     rr = RuleResult("AT4", "block disconnection vs a concurrent trigger: the index is purged before the reorged trackers are collected")
     P = ctx.prog
